@@ -284,16 +284,18 @@ def validate_histories(ctx, jobs, lin_module, cfg_consts, group=None, prop=None,
     rej.sort(key=lambda rec: (len(rec[2]), rec[1]))
     seen_variants = set()
     pick = []
-    for rec in rej:      # prefer one (shortest) rejected history per variant
-        if rec[0].variant not in seen_variants:
-            seen_variants.add(rec[0].variant)
+    for rec in rej:      # one (shortest) rejected history per (variant, kind of failure), so that a known finding cannot hide another failure
+        key = (rec[0].variant, classify(rec[2]))
+        if key not in seen_variants:
+            seen_variants.add(key)
             pick.append(rec)
+    pick = pick[:16]
     for rec in rej:
         if len(pick) >= 8:
             break
         if rec not in pick:
             pick.append(rec)
-    for rec in pick[:8]:
+    for rec in pick:
         j, gid, body, sch = rec
         tf1 = os.path.join(ctx.dir, "rej_%s_%d.ndjson" % (nm, gid))
         with open(tf1, "w") as f:
@@ -304,8 +306,8 @@ def validate_histories(ctx, jobs, lin_module, cfg_consts, group=None, prop=None,
             ctx.machinery_errors.append("history %d rejected in batch but accepted alone" % gid)
             continue
         rejected.append(rec)
-    if len(rej) > len(pick[:8]):
-        ctx.notes.append("%d rejected histories in %s; %d individually confirmed and reported" % (len(rej), nm, len(pick[:8])))
+    if len(rej) > len(pick):
+        ctx.notes.append("%d rejected histories in %s; %d individually confirmed and reported" % (len(rej), nm, len(pick)))
     for rec in rejected:
         report_rejection(ctx, rec, lin_module, cfg_consts, prop or ctx.prop)
     return rejected
